@@ -279,7 +279,8 @@ func (ex *Exec) feasible(t *Term) SatResult {
 // the same query from scratch (path condition re-asserted).
 func (ex *Exec) checkWith(t *Term) SatResult {
 	if !ex.deadline.IsZero() && time.Now().After(ex.deadline) {
-		return Unknown
+		// abandon the path: answering "unknown" would let it wander into infeasible branches
+		panic(pathEnd{"timeout", "harness time limit reached inside a path"})
 	}
 	ex.flush()
 	r := ex.solver.CheckWith(t)
